@@ -10,6 +10,7 @@ import extract_semtok
 import extract_vfs
 import extract_lmap
 import extract_fileset
+import extract_diag
 import weave
 from common import VERIF, REPO, scratch, Undecided
 from rustcut import AnchorLost
@@ -76,7 +77,15 @@ UNITS['fileset'] = {
          'old': '            self.files.remove(&path);\n', 'new': ''},
     ],
 }
-COPY_DIRS = ('crates/glas/src', 'crates/ide/src/ide', 'crates/ide/src/base.rs')
+UNITS['diag'] = {
+    'extract': extract_diag, 'spec': 'contracts/diag.spec', 'prelude': 'contracts/diag_prelude.rs',
+    'reach': ('proof fn reach_probe(e: SynError)\n    requires e.range.start < e.range.end,\n{ assert(false); }\n'),
+    'canaries': [
+        {'name': 'verus: a syntax-error diagnostic is given the range 0..end', 'file': 'crates/ide/src/diagnostic.rs',
+         'old': '        Self::new(err.range, DiagnosticKind::SyntaxError(err.kind))', 'new': '        Self::new(TextRange::new(0.into(), err.range.end()), DiagnosticKind::SyntaxError(err.kind))'},
+    ],
+}
+COPY_DIRS = ('crates/glas/src', 'crates/ide/src/ide', 'crates/ide/src/base.rs', 'crates/ide/src/diagnostic.rs')
 
 
 def build(unit, repo, outdir):
